@@ -76,7 +76,9 @@ theorem wkOf_none_of_wfOf_none {s : SObj} (h : wfOf s = none) : wkOf s = none :=
 
 theorem exitState_of_not_waiting (c : Cfg) (h : wfOf c.st = none) : exitState c = c := by
   unfold exitState
-  cases hst : c.st <;> simp only [hst] <;> rw [hst] at h <;> simp [wfOf] at h
+  split
+  · rename_i fn wf wk aw hst; rw [hst] at h; simp [wfOf] at h
+  · rfl
 
 def NI (c : Cfg) : Prop := ∀ wf k, wfOf c.st = some wf → c.wfs[wf]? ≠ some (.interrupted k)
 
